@@ -29,6 +29,18 @@ fn fault_path(dir: &Path, fault: &str, ext: &str) -> Option<String> {
     let p = |s: PathBuf| Some(s.to_string_lossy().to_string());
     match fault {
         "none" | "EFBIG" => p(dir.join(format!("out.{ext}"))),
+        // no fault, but a legal name of an unusual kind (the outcome must not depend on how the file is called)
+        "name0" => p(dir.join(format!("two words and\ttab.{ext}"))),
+        "name1" => p(dir.join(format!("\u{fc}\u{f1}\u{ed}-\u{4e8c}\u{7ef4}\u{7801}-\u{1f680}.{ext}"))),
+        "name2" => p(dir.join(format!("-rf --.{ext}"))),
+        "name3" => p(dir.join(format!("dots..in...name.{}", ext.to_uppercase()))),
+        "name4" => p(dir.join("noextension")),
+        "name5" => { let _ = std::env::set_current_dir(dir); Some(format!("relative.{ext}")) }
+        "name6" => { let _ = std::env::set_current_dir(dir); let _ = std::fs::create_dir_all(dir.join("sub/dir")); Some(format!("./sub/../sub/dir//relative.{ext}")) }
+        "name7" => { let t = dir.join(format!("symlink_target.{ext}")); let l = dir.join(format!("symlink.{ext}")); let _ = std::fs::remove_file(&l); let _ = std::fs::write(&t, b"old");
+                     if std::os::unix::fs::symlink(&t, &l).is_ok() { p(l) } else { None } }
+        "name8" => p(dir.join(format!("{}.{ext}", "n".repeat(250 - ext.len())))),                     // the longest legal name (255 bytes)
+        "name9" => p(dir.join(format!("back\\slash'quote\"double&amp;<x>.{ext}"))),
         "ENOENT" => p(dir.join("missing").join(format!("out.{ext}"))),
         "EISDIR" => { let d = dir.join(format!("isdir.{ext}")); let _ = std::fs::create_dir_all(&d); p(d) }
         "ENOTDIR" => { let f = dir.join("plainfile"); let _ = std::fs::write(&f, b"x"); p(f.join(format!("out.{ext}"))) }
@@ -53,7 +65,7 @@ pub fn file_event(id: u64, tag: &str, dir: &Path, qr: &QRCode, prog: &[Call], re
     let ext = if renderer == "svg" { "svg" } else { "png" };
     let path = fault_path(dir, fault, ext)?;
     let expect: Vec<u8> = if renderer == "svg" { svg_builder(prog).to_str(qr).into_bytes() } else { image_builder(prog).to_bytes(qr).ok()? };
-    let regular = matches!(fault, "none" | "EFBIG");
+    let regular = matches!(fault, "none" | "EFBIG") || fault.starts_with("name");
     if regular {
         let _ = std::fs::remove_file(&path);
         // what is at the path before the call: nothing, a shorter file, or a longer one (of other bytes)
@@ -103,6 +115,13 @@ pub fn fileio(sink: &mut Sink, seed: u64, thorough: bool, behaviours: &str) {
                     Some(ev) => sink.emit(&ev),
                     None => sink.emit(&json!({"ev": "FileSkip", "id": id, "tag": format!("file:{renderer}:{fault}:{off}:{pre}"), "fault": fault})),
                 }
+            }
+            // unusual but legal names: the same outcome as the plain name (reported to the specification as the no-fault class)
+            for k in 0..10usize {
+                if !thorough && (k + vi) % 2 == 1 { continue; }
+                let id = sink.id();
+                let pre = ["absent", "shorter", "longer"][(k + vi) % 3];
+                if let Some(mut ev) = file_event(id, &format!("filename:{renderer}:{k}"), &dir, &qr, &prog, renderer, &format!("name{k}"), None, pre) { ev["fault"] = json!("none"); sink.emit(&ev); }
             }
             if thorough {
                 // device full after k bytes, k swept
